@@ -31,7 +31,10 @@ def plan(tier, seed):
     ds = env.supported_change_dates()
     dates = ds if tier == "thorough" else sorted({datetime.date(2015, 1, 1), datetime.date(2019, 1, 1), datetime.date(2023, 1, 1),
                                                   datetime.date(2024, 1, 1), ds[int(r.integers(0, len(ds)))]})
-    return [dict(date=str(d), k=k, seed=seed) for d in dates for k in range(4 if tier == "quick" else 6)]
+    items = [dict(date=str(d), k=k, seed=seed) for d in dates for k in range(4 if tier == "quick" else 6)]
+    # deterministic witnesses of the situations behind the known findings (so that every run meets them)
+    items.append(dict(date="2023-07-01", k=0, seed=seed, witness=True))
+    return items
 
 
 def constant_within(values, ids):
@@ -57,6 +60,14 @@ def run_item(item):
     df = popgen.population(rng, d, n_hh=12, params=params, heterogeneous=True,
                            archetypes=["family_m", "family_u", "patchwork", "couple_m", "couple_u", "single_parent",
                                        "big_family", "pens_couple", "mixed_age_couple", "selfsufficient_kids", "three_gen", "adult_child"])
+    if item.get("witness"):
+        df = popgen.population(rng, d, n_hh=6, params=params, heterogeneous=True, archetypes=["family_m", "single_parent", "family_u"], cycle=True)
+        # one partner of every couple has drawn Elterngeld for 12 months, the other for none; members differ
+        # in the previous-year Buergergeld flag; single parents carry the single-parent flag
+        partnered = df["p_id_einstandspartner"].to_numpy() >= 0
+        first = partnered & (df["p_id"].to_numpy() < df["p_id_einstandspartner"].to_numpy())
+        df["monate_elterngeldbezug"] = np.where(first | df["alleinerz"].to_numpy(), 12, 0)
+        df["bürgerg_bezug_vorj"] = np.arange(len(df)) % 2 == 0
     df = df.iloc[rng.permutation(len(df))].reset_index(drop=True)
     T, nodes, roots, dag, fn = env.trace(df, params, functions, rounding=bool(item["k"] % 2))
     res = dict(date=item["date"], pop=popgen.digest(df), violations=[], suffixed_nodes=0, groups_checked=0,
@@ -80,20 +91,28 @@ def run_item(item):
         if same_level_bad:
             res["propagated"] += 1
             continue
-        g = ids[i]
-        members = [j for j, x in enumerate(ids) if x == g]
-        offending = []
-        for p in parents:
-            if p in T.columns and not p.endswith("_id") and len({repr(T[p].iloc[j]) for j in members}) > 1:
-                offending.append(p)
-        vals = [T[t].iloc[j].item() if hasattr(T[t].iloc[j], "item") else T[t].iloc[j] for j in members]
-        for p in offending or ["?"]:
-            res["violations"].append(dict(
-                key=f"{t}:{p}",
-                what=f"{t} takes the values {vals} within {lvl} {g} (persons {T['p_id'].iloc[members].tolist()}): "
-                     f"its argument {p} varies among the members "
-                     f"({[T[p].iloc[j].item() if hasattr(T[p].iloc[j], 'item') else T[p].iloc[j] for j in members] if p in T.columns else ''})",
-                date=item["date"]))
+        # every group in which the node is not constant contributes its varying arguments
+        col = T[t].tolist()
+        by_group = {}
+        for j, x in enumerate(ids):
+            by_group.setdefault(x, []).append(j)
+        seen_args = set()
+        for g, members in by_group.items():
+            if len({repr(col[j]) for j in members}) <= 1:
+                continue
+            offending = [p for p in parents if p in T.columns and not p.endswith("_id")
+                         and len({repr(T[p].iloc[j]) for j in members}) > 1]
+            vals = [T[t].iloc[j].item() if hasattr(T[t].iloc[j], "item") else T[t].iloc[j] for j in members]
+            for p in offending or ["?"]:
+                if p in seen_args:
+                    continue
+                seen_args.add(p)
+                res["violations"].append(dict(
+                    key=f"{t}:{p}",
+                    what=f"{t} takes the values {vals} within {lvl} {g} (persons {T['p_id'].iloc[members].tolist()}): "
+                         f"its argument {p} varies among the members "
+                         f"({[T[p].iloc[j].item() if hasattr(T[p].iloc[j], 'item') else T[p].iloc[j] for j in members] if p in T.columns else ''})",
+                    date=item["date"]))
     res["sample"] = dict(date=item["date"], population=popgen.describe(df))
     return res
 
